@@ -74,8 +74,11 @@ def handle (prop : String) (impl : String) : String :=
       let nRev := (es.filter (fun e => match e with | .revokeStart _ ps => !ps.isEmpty | _ => false)).length
       let nCommit := (es.filter (fun e => match e with | .commit _ _ _ true => true | _ => false)).length
       let nt := boolStr (decide (nJoin ≥ 2) && decide (nRev ≥ 1) && decide (nCommit ≥ 1))
+      -- the class "a KIP-848 member closed while a reconciliation was taking partitions away from it" has its own key
+      let is848 := match ct.splitOn ":" with | [_, _, b] => b == "4" | _ => false
+      let keyOf (r : String) : String := if is848 && r == "C07.left-still-owning-partitions" then r ++ ".kip848" else r
       match rs with
       | [] => s!"* | 1 | {nt}"
-      | r :: _ => s!"* | 0:{r} | {nt}"
+      | r :: _ => s!"* | 0:{keyOf r} | {nt}"
 
 end Driver.GroupHist
